@@ -122,6 +122,9 @@ type ReadFault struct {
 type WriteFault struct {
 	K    int    `json:"k"`
 	Kind string `json:"kind"`
+	// NextWrite: the fault fires at the next Write, however many deadline
+	// calls precede it (K is ignored).
+	NextWrite bool `json:"next_write,omitempty"`
 }
 
 // ScriptConn is a net.Conn whose input, chunking and failures are scripted
@@ -394,7 +397,7 @@ func (c *ScriptConn) writeSideFault() (string, bool) {
 		c.wferr = ErrTimeout
 		return FaultTimeout, true
 	}
-	if c.wfault != nil && !c.wfired && k == c.wfault.K {
+	if c.wfault != nil && !c.wfired && (k == c.wfault.K && !c.wfault.NextWrite || c.wfault.NextWrite && c.inWrite) {
 		c.wfired = true
 		c.FiredAtOp = k
 		c.wferr = FaultErr(c.wfault.Kind)
